@@ -8,9 +8,15 @@ import (
 )
 
 // Generator. Everything is constructed (no rejection): base facts are coalesced per atom by construction
-// (sorted, at least one free second between two intervals, an unbounded interval only as the first/last one),
-// windows satisfy 0 <= d1 <= d2, every variable is bound before it is used, argument values are the plainly
-// different numbers 1..5 (the temporal store keys atoms by Atom.Hash(), known finding K08).
+// (disjoint, at least one second between two intervals, an unbounded interval only as the first/last one) - except
+// in the shared-start cases below -, windows satisfy 0 <= d1 <= d2, every variable is bound before it is used,
+// argument values are the plainly different numbers 1..5 (the temporal store keys atoms by Atom.Hash(), known
+// finding K08). The order of Case.Temporal is the insertion order into the store.
+//
+// A quarter of the cases has 1-2 dense atoms (6-12 disjoint intervals, inserted in a generated order: the
+// interval tree has rotated), an eighth has intervals of one atom that share their start (overlapping base data;
+// judged only through constructs whose meaning does not depend on coalescing, see ref_test.go). In both the
+// evaluation time sits on an interval end of that atom +-1 s and the windows are short and placed on its ends.
 //
 // Predicates: ta/1, tb/1 hold intervals (also single instants and unbounded ones), tev/1, tfv/1 hold single
 // instants only, tp/1 is the predicate of the self-recursive rules (base facts plus derived ones), e/2 is an
@@ -32,6 +38,11 @@ type gctx struct {
 	points []string    // bound time variables known to come from single instants
 	starts []string    // bound start-only variables
 	ends   []string    // bound end-only variables
+	// focus: the predicate (and atom argument) that carries a dense atom or intervals with a shared start; the
+	// rules of such a case mostly read it, with short windows placed on its interval ends.
+	focus    *source
+	focusArg int64
+	special  []int64 // interval ends of the focus atom
 }
 
 func (g *gctx) fresh(prefix string) string {
@@ -90,6 +101,86 @@ func (g *gctx) genBaseFacts(pred string, point bool) {
 	}
 }
 
+// genDense gives one or two atoms of a base predicate 6-12 pairwise disjoint, non-adjacent intervals (replacing
+// what the atom had), put into the store in a generated order.
+func (g *gctx) genDense(base []source) {
+	s := rapid.SampledFrom(base).Draw(g.t, "densepred")
+	natoms := 1
+	if rapid.IntRange(0, 3).Draw(g.t, "twodense") == 2 {
+		natoms = 2
+	}
+	args := rapid.Permutation([]int64{1, 2, 3}).Draw(g.t, "denseargs")[:natoms]
+	for ai, arg := range args {
+		var kept []TFact
+		for _, f := range g.c.Temporal {
+			if f.Pred != s.pred || f.Args[0] != arg {
+				kept = append(kept, f)
+			}
+		}
+		n := rapid.IntRange(6, 12).Draw(g.t, "ndense")
+		pos := rapid.Int64Range(0, 6).Draw(g.t, "densefirst")
+		var ivs []Iv
+		for i := 0; i < n; i++ {
+			length := int64(0)
+			if !s.point {
+				length = rapid.Int64Range(0, 3).Draw(g.t, "denselen")
+			}
+			ivs = append(ivs, Iv{Lo: pos, Hi: pos + length})
+			pos += length + rapid.Int64Range(1, 4).Draw(g.t, "densegap")
+		}
+		if rapid.IntRange(0, 3).Draw(g.t, "ascending") > 0 {
+			ivs = rapid.Permutation(ivs).Draw(g.t, "denseorder")
+		}
+		for _, iv := range ivs {
+			kept = append(kept, TFact{Pred: s.pred, Args: []int64{arg}, Iv: iv})
+			if ai == 0 {
+				g.special = append(g.special, iv.Lo, iv.Hi)
+			}
+		}
+		g.c.Temporal = kept
+	}
+	g.focus, g.focusArg = &s, args[0]
+}
+
+// genSharedStart adds to a finite interval of an interval predicate one or two more intervals of the same atom
+// with the same start and another end, before or after it in insertion order.
+func (g *gctx) genSharedStart(base []source) {
+	var idx []int
+	for i, f := range g.c.Temporal {
+		if (f.Pred == "ta" || f.Pred == "tb") && !f.Iv.LoInf && !f.Iv.HiInf {
+			idx = append(idx, i)
+		}
+	}
+	if len(idx) == 0 {
+		return
+	}
+	i := rapid.SampledFrom(idx).Draw(g.t, "sharedwith")
+	f := g.c.Temporal[i]
+	n := rapid.IntRange(1, 2).Draw(g.t, "nshared")
+	seen := map[int64]bool{f.Iv.Hi: true}
+	g.special = append(g.special, f.Iv.Lo, f.Iv.Lo, f.Iv.Hi) // the shared start twice: the likely evaluation time
+	for k := 0; k < n; k++ {
+		hi := f.Iv.Hi + rapid.Int64Range(-4, 4).Draw(g.t, "sharedend")
+		if hi < f.Iv.Lo {
+			hi = f.Iv.Lo
+		}
+		if seen[hi] {
+			hi = f.Iv.Hi + 5 + int64(k)
+		}
+		seen[hi] = true
+		twin := TFact{Pred: f.Pred, Args: f.Args, Iv: Iv{Lo: f.Iv.Lo, Hi: hi}}
+		at := rapid.IntRange(0, len(g.c.Temporal)).Draw(g.t, "sharedpos")
+		g.c.Temporal = append(g.c.Temporal[:at], append([]TFact{twin}, g.c.Temporal[at:]...)...)
+		g.special = append(g.special, hi)
+	}
+	for _, s := range base {
+		if s.pred == f.Pred {
+			s := s
+			g.focus, g.focusArg = &s, f.Args[0]
+		}
+	}
+}
+
 // endpoints lists the finite interval ends of the base facts of pred (all temporal base facts if there are none).
 func (g *gctx) endpoints(pred string) []int64 {
 	var xs []int64
@@ -135,18 +226,43 @@ func (g *gctx) genOperator(pred string, allowFuture bool) (string, int64, int64)
 		}
 		return x - g.c.Now
 	}
+	tight := g.focus != nil && g.focus.pred == pred
 	switch aim := rapid.IntRange(0, 11).Draw(g.t, "aim"); {
 	case aim < 5: // one end of the window on (aim 4: next to) an interval end
-		x := rapid.SampledFrom(g.endpoints(pred)).Draw(g.t, "endpoint")
+		ends := g.endpoints(pred)
+		if tight {
+			// interval ends of the focus atom within reach of a window
+			var near []int64
+			for _, x := range g.special {
+				if x-g.c.Now <= maxWindow+10 && g.c.Now-x <= maxWindow+10 {
+					near = append(near, x)
+				}
+			}
+			if len(near) > 0 {
+				ends = near
+			}
+		}
+		x := rapid.SampledFrom(ends).Draw(g.t, "endpoint")
 		if aim == 4 {
 			x += rapid.Int64Range(-1, 1).Draw(g.t, "jitter")
 		}
 		turn(x)
 		if d := dist(x); usable(d) {
+			// tight: the other end of the window at most 2 s away, so that few intervals are met
+			k := rapid.Int64Range(0, 2).Draw(g.t, "tightlen")
 			if aim%2 == 0 {
 				d1 = d
+				if tight {
+					d2 = d + k
+				}
 			} else {
 				d2 = d
+				if tight {
+					d1 = d - k
+					if d1 < 0 {
+						d1 = 0
+					}
+				}
 			}
 		}
 	case aim < 10: // the window inside a stored interval, one end on its end (aim 9: sticking out by a second)
@@ -213,7 +329,7 @@ func (g *gctx) genOperator(pred string, allowFuture bool) (string, int64, int64)
 func (g *gctx) genTick(pred string) int64 {
 	if rapid.IntRange(0, 3).Draw(g.t, "tickmode") > 0 {
 		x := rapid.SampledFrom(g.endpoints(pred)).Draw(g.t, "endpoint") + rapid.Int64Range(-1, 1).Draw(g.t, "jitter")
-		if x >= 0 && x <= 58 {
+		if x >= 0 && x <= 110 {
 			return x
 		}
 	}
@@ -229,6 +345,8 @@ func (g *gctx) genArgs(s source, joinVar string) []Term {
 			args[i] = Term{V: joinVar}
 		case i == 0 && r == 7:
 			args[i] = Term{V: "_"}
+		case i == 0 && g.focus != nil && g.focus.pred == s.pred && rapid.Bool().Draw(g.t, "focusarg"):
+			args[i] = Term{N: g.focusArg}
 		case i == 0:
 			args[i] = Term{N: rapid.Int64Range(1, 3).Draw(g.t, "argconst")}
 		case s.times:
@@ -259,6 +377,14 @@ func (g *gctx) genTemporalLit(s source, joinVar string, allowFuture bool) Lit {
 	shape := rapid.IntRange(0, 19).Draw(g.t, "litshape")
 	if (len(g.points) > 0 && s.point || len(g.pairs) > 0) && rapid.Bool().Draw(g.t, "usebound") {
 		shape = 19 // reuse time variables of an earlier literal
+	}
+	if g.focus != nil && g.focus.pred == s.pred {
+		switch r := rapid.IntRange(0, 9).Draw(g.t, "focusshape"); {
+		case r < 5:
+			shape = 7 // operator whose annotation binds the stored interval
+		case r < 8:
+			shape = 0 // operator
+		}
 	}
 	if s.point && (shape == 9 || shape == 10) && rapid.Bool().Draw(g.t, "pointsource") {
 		shape = 11 // the point form on a predicate of single instants
@@ -403,6 +529,8 @@ func (g *gctx) genRule(head string, sources []source, mustUse *source, allowFutu
 		s := rapid.SampledFrom(sources).Draw(g.t, "source")
 		if i == 0 && mustUse != nil {
 			s = *mustUse
+		} else if i == 0 && g.focus != nil && rapid.IntRange(0, 3).Draw(g.t, "usefocus") > 0 {
+			s = *g.focus
 		}
 		join := "X"
 		if i > 0 && rapid.IntRange(0, 4).Draw(g.t, "nojoin") == 0 {
@@ -430,7 +558,7 @@ func (g *gctx) finishHead(r *Rule) {
 		return
 	}
 	// ordinary head: q(X) or q(X, S, E) carrying the interval ends as time values.
-	if len(g.pairs) > 0 && rapid.IntRange(0, 2).Draw(g.t, "headtimes") == 0 {
+	if len(g.pairs) > 0 && (rapid.IntRange(0, 2).Draw(g.t, "headtimes") == 0 || g.focus != nil && rapid.Bool().Draw(g.t, "focusheadtimes")) {
 		p := rapid.SampledFrom(g.pairs).Draw(g.t, "headpair")
 		r.Args = append(r.Args, Term{V: p[0]}, Term{V: p[1]})
 	}
@@ -516,6 +644,16 @@ func genCase(t *rapid.T) Case {
 	}
 	// the evaluation time lies near the data.
 	c.Now = rapid.SampledFrom(g.endpoints("")).Draw(t, "nownear") + rapid.Int64Range(-12, 12).Draw(t, "nowoffset")
+	switch rapid.IntRange(0, 7).Draw(t, "special") {
+	case 2, 5: // a quarter of the cases: dense atoms
+		g.genDense(base)
+	case 3: // intervals of one atom that share their start (the store is not coalesced then)
+		g.genSharedStart(base)
+	}
+	if len(g.special) > 0 {
+		// the evaluation time on an interval end of the focus atom or a second off
+		c.Now = rapid.SampledFrom(g.special).Draw(t, "nowspecial") + rapid.Int64Range(-1, 1).Draw(t, "nowjitter")
+	}
 	if c.Now < 2 {
 		c.Now = 2
 	}
